@@ -12,6 +12,7 @@
 #include "parameter_reader.hpp"
 #include "simulation_initializer.hpp"
 #include <filesystem>
+#include <omp.h>
 #include <map>
 #include <set>
 #include <csignal>
@@ -104,6 +105,21 @@ int main(){
                 }
                 std::cout << " |"; for (short x : tys) std::cout << " " << x;
                 std::cout << "\n";
+            } else if (mode == "WX"){
+                // WX <tissue> W dir threads which : mesh_writer::write with the cell file (which & 1) and / or the face file (which & 2) in a
+                // folder that does not exist; out: NONE | EXC what
+                tissue_case t = read_tissue(in);
+                expect(in, "W"); std::string dir; int threads, which; in >> dir >> threads >> which;
+                std::filesystem::create_directories(dir);
+                std::vector<cell_ptr> cells = build_cells(t, true);
+                for (size_t i = 0; i < cells.size(); i++){ cells[i]->set_id((unsigned)i); cells[i]->set_local_id((unsigned)i); }
+                omp_set_num_threads(threads);
+                const std::string good_c = dir + "/cells.vtk", good_f = dir + "/faces.vtk", bad_c = dir + "/no_such_folder/cells.vtk", bad_f = dir + "/no_such_folder/faces.vtk";
+                std::string res = "NONE";
+                try { mesh_writer::write((which & 1) ? bad_c : good_c, (which & 2) ? bad_f : good_f, cells); }
+                catch (const std::exception& e){ res = std::string("EXC ") + e.what(); for (char& ch : res) if (ch == '\n') ch = ' '; }
+                omp_set_num_threads(1);
+                std::cout << res << "\n";
             } else if (mode == "RD"){
                 std::string path; in >> path;
                 mesh_reader rd_(path, false);
